@@ -22,6 +22,7 @@ code and by the model and re-checked semantically by the oracle).
 import PubgrubProofs.CollapseSound
 import PubgrubProofs.TreeLink
 import PubgrubProofs.CollapseNoPanic
+import PubgrubProofs.RangeAnyOrder2
 
 namespace Pubgrub.C09
 open Pubgrub
@@ -86,5 +87,20 @@ theorem C09_no_panic_on_resolve_trees {Pr E : Type} [DecidableEq V] [DecidableEq
     (h : Reachable (E := E) W debug fuel root rv (s, .noSolution tree)) :
     ∃ t', tree.collapseNoVersions = .ok t' :=
   noSolution_collapse_no_panic W hW debug fuel root rv s tree h
+
+/-! ### `Range V` over ANY linear order (second batch of pull-backs, RangeAnyOrder2) -/
+section AnyOrder2
+variable {P V M Pr E : Type} [DecidableEq P] [LinearOrder V] [LE Pr] [DecidableLE Pr]
+
+theorem C09_range_on_resolve_trees
+    (W : World P (Range V) V M) (hW : W.RangesWF) (debug : Bool) (fuel : Nat)
+    (root : P) (rv : V) (s : SolverState P (Range V) V M Pr) (tree : DerivationTree P (Range V) V M)
+    (h : Reachable (E := E) W debug fuel root rv (s, .noSolution tree))
+    (t' : DerivationTree P (Range V) V M) (hc : tree.collapseNoVersions = .ok t') :
+    t'.Sound W.Exists ∧ t'.LeavesTrueExisting W root rv ∧ t'.NoVersionsOnlyBesideLeaf ∧
+      (∀ σ : P → Option V, Within W.Exists σ → σ root = some rv → TermsTrue σ t'.terms) :=
+  by apply range_C09_on_resolve_trees (P := P) (V := V) (M := M) (Pr := Pr) (E := E) <;> assumption
+
+end AnyOrder2
 
 end Pubgrub.C09
